@@ -357,6 +357,14 @@ class Gen:
             t, n, v = rng.choice(scalar_consts)
             f.consts.append((t, names.fresh(), n))
             self.features.add("const:ref")
+        # a struct whose fields of a container type default to a constant of this file by NAME (the generators emit a
+        # reference to the constant there, not a literal)
+        named = [c for c in f.consts if c[0][0] in ("list", "set", "map")]
+        if named and rng.random() < 0.5:
+            t, n, v = rng.choice(named)
+            f.structs.append(("struct", names.fresh("type"),
+                              [(1, "", t, names.fresh(), n), (2, "optional ", t, names.fresh(), n), (4, "", ("base", "i32"), names.fresh(), None)]))
+            self.features.add("default:named_container_const")
         # services
         excs = self.refs(f, {"exception"})
         for _ in range(rng.randrange(0, int(2 * sz) + 1)):
